@@ -15,8 +15,44 @@ def need_funcs(model: Model, rep, anchors: list[str]) -> dict[str, FuncInfo]:
         try:
             out[a] = model.func(a)
         except AnchorMissing as e:
+            alias = _alias_target(model, a)
+            if alias is not None:
+                # `from .other import f as _f`: the anchored name is now another definition of the repository; the rules apply to that definition
+                if alias.anchor not in anchors:
+                    out[a] = alias
+                else:
+                    rep.instance("ALIAS", a)
+                rep.note(f"{a} is an alias of {alias.anchor}" + (" (which is analysed under its own name)" if alias.anchor in anchors else ""))
+                continue
+            if _private_and_unreferenced(model, a):
+                # a private helper that no longer exists and is not mentioned anywhere: it was inlined into (or merged with) its callers, whose own rules
+                # still apply; the rules about the helper itself have nothing to look at
+                rep.note(f"private helper {a} no longer exists and nothing refers to it (inlined or merged): its own obligations are vacuous")
+                continue
             rep.error(f"anchor vanished: {e}")
     return out
+
+
+def _alias_target(model: Model, anchor: str):
+    rel, qual = anchor.split("::")
+    if "." in qual:
+        return None
+    try:
+        mod = model.module(rel)
+        r = model.resolve_dotted(mod, qual)
+    except Exception:
+        return None
+    return r if isinstance(r, FuncInfo) else None
+
+
+def _private_and_unreferenced(model: Model, anchor: str) -> bool:
+    import re
+    name = anchor.split("::")[-1].split(".")[-1].split("@")[0]
+    if not name.startswith("_") or (name.startswith("__") and name.endswith("__")):
+        return False
+    pat = re.compile(r"\b" + re.escape(name) + r"\b")
+    mods = model.modules.values() if isinstance(model.modules, dict) else model.modules
+    return not any(pat.search(m.source) for m in mods)
 
 
 class SinkTable:
